@@ -375,3 +375,22 @@ def loop_detection(ctx):
     ctx.check(need <= set(ms), "visitors-present", db.where(db.cls("codegen.LoopVariable")), "LoopVariable lacks visitors %s" % sorted(need - set(ms)), "control lines, code blocks and expressions are scanned")
     mm = db.func("codegen.mangle_mako_loop")
     ctx.check(P.has(mm, "$v = LoopVariable()\n$n.accept_visitor($v)\nif $v.detected:\n    ...\nelse:\n    ...") or P.has(mm, "$v = LoopVariable()\n$n.accept_visitor($v)\nif $v.detected:\n    ..."), "used", db.where(mm), "mangle_mako_loop does not base its decision on a LoopVariable scan of the for line", "decision = LoopVariable scan of the for node")
+
+
+@rule("C03.printer-model", primary=False, min_instances=2)
+def printer_model(ctx):
+    """the indentation automaton the skeleton rules lay code out with is the one PythonPrinter.writeline implements (shape of its dedent / indent decisions)"""
+    db = ctx.db
+    from ..engine import pattern as P
+    S = sk.get(db)
+    iu = db.func("pygen.PythonPrinter._is_unindentor")
+    if S.layout.unindentor_model_ok:
+        ctx.ok("is_unindentor", db.where(iu), "dedent decision: an unindentor keyword after a compound indentor (%s)" % S.layout.unindentor_shape)
+    else:
+        ctx.undecided("is_unindentor", db.where(iu), "_is_unindentor's final decision is not one of the modelled shapes; C03.skeletons / C13 layouts are not claimed for this tree")
+    wl = db.func("pygen.PythonPrinter.writeline")
+    ok = P.has(wl, "if not $c and (not $h or self._is_unindentor($l)) and self.indent > 0:\n    self.indent -= 1\n    ...") and P.has(wl, "if self._re_indent.search($l):\n    ...")
+    if ok:
+        ctx.ok("writeline", db.where(wl), "dedent before / indent after a line ending in ':' as modelled")
+    else:
+        ctx.undecided("writeline", db.where(wl), "writeline's indent/dedent conditions are not in the modelled shape")
